@@ -5,9 +5,26 @@
 package vsync
 
 import (
+	"runtime"
 	"sync"
 	"sync/atomic"
 )
+
+// single > 0: the harness drives the library from one goroutine and single is the number of goroutines that
+// existed when it said so. Acquiring a mutex that is already held can then never succeed unless the library
+// itself started a goroutine that will release it; if the goroutine count has not grown, the wait is a certain
+// deadlock and is reported by panicking at once (the checks turn that into "the library is left blocked")
+// instead of hanging until the watchdog. Otherwise the operation blocks as usual.
+var single atomic.Int32
+
+func SetSingleThreaded(baselineGoroutines int) { single.Store(int32(baselineGoroutines)) }
+
+const BlockedMsg = "vsync: the library is blocked: a mutex that was never released is being acquired and no other goroutine exists that could release it"
+
+func certainDeadlock() bool {
+	b := single.Load()
+	return b > 0 && runtime.NumGoroutine() <= int(b)
+}
 
 // Hook is installed by the explorer. All methods are called on the goroutine performing the operation.
 type Hook interface {
@@ -41,6 +58,14 @@ func (m *Mutex) Lock() {
 	if h := current(); h != nil {
 		h.Lock(m)
 		return
+	}
+	if single.Load() > 0 {
+		if m.mu.TryLock() {
+			return
+		}
+		if certainDeadlock() {
+			panic(BlockedMsg)
+		}
 	}
 	m.mu.Lock()
 }
@@ -76,6 +101,14 @@ func (m *RWMutex) RLock() {
 		h.Lock(&m.Mutex)
 		return
 	}
+	if single.Load() > 0 {
+		if m.rw.TryRLock() {
+			return
+		}
+		if certainDeadlock() {
+			panic(BlockedMsg)
+		}
+	}
 	m.rw.RLock()
 }
 func (m *RWMutex) RUnlock() {
@@ -89,6 +122,14 @@ func (m *RWMutex) Lock() {
 	if h := current(); h != nil {
 		h.Lock(&m.Mutex)
 		return
+	}
+	if single.Load() > 0 {
+		if m.rw.TryLock() {
+			return
+		}
+		if certainDeadlock() {
+			panic(BlockedMsg)
+		}
 	}
 	m.rw.Lock()
 }
